@@ -547,6 +547,7 @@ def decide_loop(ctx, prog, b, kind, paths_unused, ident):
     except sym.TooManyPaths:
         ctx.violation("TAB-LEX", ident, "too many paths", b.file())
         return
+    paths = _fold_u8_consts(paths, consts)
     pre = [p for p in paths if not any(e[0] == "loop" for e in p.events)]
     post = [p for p in paths if any(e[0] == "loop" for e in p.events)]
     back = [p for p in post if p.kind == "back"]
@@ -621,6 +622,34 @@ def decide_loop(ctx, prog, b, kind, paths_unused, ident):
             b.key, "is not lexicographic" if kind == "cmp" else "disagrees with ==", m), b.file())
 
 
+def _fold_u8_consts(paths, consts):
+    """tests between two U8Ordering constants (`ord.0 != Self::EQUAL.0` after inlining a helper that returned one of them) are
+    decided from the constants' values (TAB-U8ORD pins them): a path needing a false one is dropped, true ones disappear"""
+    def val(t):
+        if t[0] == "field" and t[2] == 0 and t[1][0] == "const" and "U8Ordering::" in t[1][1]:
+            return consts.get(t[1][1].split("::")[-1])
+        if t[0] == "int":
+            return t[1]
+        return None
+    out = []
+    for p in paths:
+        keep = []
+        dead = False
+        for c in p.conds:
+            if c[0] in ("eq", "ne") and len(c) == 3 and "U8Ordering::" in repr(c):
+                a, b = val(c[1]), val(c[2])
+                if a is not None and b is not None:
+                    if (a == b) != (c[0] == "eq"):
+                        dead = True
+                        break
+                    continue
+            keep.append(c)
+        if not dead:
+            p.conds = tuple(keep)
+            out.append(p)
+    return out
+
+
 def _elem_atom(back, I):
     """the condition under which the loop continues, beyond the bounds guards: elements (heads) are equal"""
     found = None
@@ -631,6 +660,15 @@ def _elem_atom(back, I):
             if "'index'" in r or "'cidx'" in r:
                 if c[0] in ("eq", "holds", "nholds", "in", "notin", "is", "notin_variants", "ne"):
                     cand.append(c)
+        if not cand:
+            # `!(l < r) && !(l > r)`: the two one-sided tests of one pair of elements together are their equality
+            les = [c for c in p.conds if c[0] == "le" and ("'index'" in repr(c) or "'cidx'" in repr(c))]
+            if len(les) == 2 and les[0][1:] == (les[1][2], les[1][1]):
+                a, b = les[0][1], les[0][2]
+                if "('p', 2)" in repr(a) and "('p', 1)" in repr(b):
+                    a, b = b, a
+                p.conds = tuple(c for c in p.conds if c not in les) + (eq(a, b),)
+                cand = [eq(a, b)]
         if len(cand) != 1:
             return None
         if found is not None and found != cand[0]:
